@@ -48,10 +48,7 @@ def run(prop, tier, seed):
     for proto in protos:
         N = len(keydriver.universe(proto))
         allpairs = [(i, j) for i in range(N) for j in range(N)]
-        if tier == 'quick':
-            rng.shuffle(allpairs)
-            # keep every pair that involves a serialized-form bytes key or the int/float boundary keys
-            allpairs = allpairs[:900]
+        rng.shuffle(allpairs)           # every ordered pair, in both tiers (the tiers differ in the pickle protocols)
         for s in range(0, len(allpairs), 150):
             tid += 1
             jobs.append((allpairs[s:s + 150], proto, seed, tid))
